@@ -2028,8 +2028,11 @@ class Stream(AbstractStream):
         new._thermal_condition = self._thermal_condition
         new._property_cache = {}
         new._property_cache_key = None, None
-        for name in ('_streams', '_vle_cache', '_lle_cache', '_sle_cache'):
+        for name in ('_vle_cache', '_lle_cache', '_sle_cache'):
             if hasattr(self, name): setattr(new, name, getattr(self, name))
+        # Phase streams are views of the shared data; each stream keeps its own 
+        # so that unlinking one stream does not re-link the views handed out by the other.
+        if hasattr(self, '_streams'): new._streams = {}
         new.equations = self.equations
         new.characterization_factors = self.characterization_factors
         return new
